@@ -570,11 +570,11 @@ def wl_targeted(ctx, rng, i):
 
 WORKLOADS = [
     Workload("faults", wl_faults, quick=lambda: len(BASES), thorough=lambda: len(BASES) * 6, exhaustive=True),
-    Workload("junk", wl_junk, quick=120, thorough=6000),
+    Workload("junk", wl_junk, quick=120, thorough=20000),
     Workload("targeted", wl_targeted, quick=lambda: len(TARGETED), thorough=lambda: len(TARGETED), exhaustive=True),
-    Workload("multi", wl_multi, quick=lambda: len(BASES) * 2, thorough=lambda: len(BASES) * 40),
-    Workload("deep", wl_deep, quick=lambda: len(BASES), thorough=lambda: len(BASES) * 10),
-    Workload("shadow", wl_shadow, quick=40, thorough=400),
+    Workload("multi", wl_multi, quick=lambda: len(BASES) * 2, thorough=lambda: len(BASES) * 120),
+    Workload("deep", wl_deep, quick=lambda: len(BASES), thorough=lambda: len(BASES) * 40),
+    Workload("shadow", wl_shadow, quick=40, thorough=1000),
 ]
 
 
